@@ -365,11 +365,15 @@ func (vc *VC) compAt(c string, s Sort, epoch int) string {
 		if epoch == 0 {
 			// A component first mentioned after the encoding has started may belong to objects that a
 			// callee allocated meanwhile: its entry value is only constrained on rows that existed at
-			// entry. Components declared up front (predeclare) are re-described at every allocation.
-			if inv := heapInv(name, s, "|alloc@0|", vc.started); inv != "" {
+			// entry. Components declared up front (predeclare) used to get the invariant on every row;
+			// a callee contract that hands back a freshly allocated object describes that object's
+			// fields in the same (entry) version of the component, which contradicted the unguarded
+			// invariant and made the continuation unreachable ((*pbSet).clause -> NewPBClause, found
+			// by reach:exit). The invariant is therefore always restricted to rows that existed at entry.
+			if inv := heapInv(name, s, "|alloc@0|", true); inv != "" {
 				vc.header = append(vc.header, "(assert "+inv+")")
 			}
-			if inv := ptrElemInv(c, name, s, "|alloc@0|", vc.started); inv != "" {
+			if inv := ptrElemInv(c, name, s, "|alloc@0|", true); inv != "" {
 				vc.header = append(vc.header, "(assert "+inv+")")
 			}
 		}
